@@ -29,7 +29,7 @@ theorem ev_number_failk (k : Nat) (c : Char) (r : List Char) (hws : isWs c = fal
   unfold ssw_number
   apply ev_word_fail _ _ c r _ hc
   simp only [pre, if_true]
-  exact skipIgn_blanks_cons k c r hws hh
+  exact skipIgn_blanks_consE k c r hws hh
 
 theorem ev_number_fail0 (c : Char) (r : List Char) (hws : isWs c = false) (hh : c ≠ '#')
     (hc : pp_nums.contains c = false) : Ev env sk ssw_number (P (c :: r)) none 0 := by
@@ -46,7 +46,7 @@ theorem dropWhile_all {α} (q : α → Bool) (l : List α) (h : ∀ x ∈ l, q x
 /-- `LineEnd` before a trailing comment that runs to the end of the input -/
 theorem skipIgn_comment (e : Nat) (comment : List Char) (hc : '\n' ∉ comment) :
     skipIgn (bl e ++ '#' :: comment) = [] := by
-  rw [skipIgn_blanks]
+  rw [skipIgn_blanksE]
   unfold skipIgn
   rw [skipWs_cons_of '#' comment (by decide)]
   simp only
